@@ -977,7 +977,7 @@ def json_triples(rules, j, meta, tops):
     return seen
 
 
-def translate():
+def translate(strict=True):
     import py2coq.jsonrules as jsonrules
     j = flatten_json()
     x = flatten_xsd()
@@ -989,9 +989,15 @@ def translate():
     jlex = resolve_lexical(j["patterns"], "J")
     xlex = resolve_lexical(x["patterns"], "X")
     tops = json_tops()
-    rules = jsonrules.translate()
-    return dict(json=j, xsd=x, meta=meta, jlex=jlex, xlex=xlex, json_tops=tops,
-                json_triples=json_triples(rules, j, meta, tops),
+    rules_error = None
+    try:
+        rules = jsonrules.translate()
+    except Exception as e:           # the schema tables stay usable by the model-independent oracles
+        if strict:
+            raise
+        rules, rules_error = None, f"{type(e).__name__}: {e}"
+    return dict(json=j, xsd=x, meta=meta, jlex=jlex, xlex=xlex, json_tops=tops, rules_error=rules_error,
+                json_triples=json_triples(rules, j, meta, tops) if rules else [],
                 spec_w_min=spec_writer(j, False), spec_w_explicit=spec_writer(j, True),
                 string_types=STRING_TYPES, lang_text=LANG_TEXT)
 
